@@ -25,14 +25,17 @@ HostedBy(V, h) == {w \in Watchers(V) : w.host = h.id}
 (* a helper is accounted for iff the goroutine that started it is alive, can  *)
 (* host executions, and is still inside at least as many executions as it     *)
 (* has helpers                                                                *)
-Explained(V, w) == \E h \in V : /\ h.id = w.host
-                                /\ h.cls \in {"prog", "driver"}
-                                /\ Cardinality(HostedBy(V, h)) <= h.frames
-SameKind(V, g) == {o \in V : o.cls = "once" /\ o.kind = g.kind}
-Orphans(V) == {w \in Watchers(V) : ~Explained(V, w)}
+GoodHosts(V) == LET W == Watchers(V)
+                IN {h.id : h \in {x \in V : /\ x.cls \in {"prog", "driver"}
+                                            /\ Cardinality({w \in W : w.host = x.id}) <= x.frames}}
+Explained(V, w) == w.host \in GoodHosts(V)
+ExplainedSet(V) == LET G == GoodHosts(V) IN {w \in Watchers(V) : w.host \in G}
+TooMany(V) == LET O == {g \in V : g.cls = "once"}
+              IN {g \in O : Cardinality({o \in O : o.kind = g.kind}) > OnceMax(g.kind)}
+Orphans(V) == (Watchers(V) \ ExplainedSet(V))
               \cup {g \in V : g.cls = "prog" /\ g.frames = 0}       \* the program function is over (or never began)
               \cup {g \in V : g.cls = "interp"}                     \* any other interpreter-started goroutine
-              \cup {g \in V : g.cls = "once" /\ Cardinality(SameKind(V, g)) > OnceMax(g.kind)}
+              \cup TooMany(V)                                       \* a one-time worker started again
 
 (* the legitimate residue: program goroutines still inside their function,   *)
 (* as a bag of (frames, helpers)                                             *)
